@@ -85,6 +85,12 @@ func (c *Ctx) mapxRun() *simpleVerdict {
 			}
 		}
 	}
+	// characters beyond the configurable range whose low 16 (or 8) bits equal an endpoint: no registration
+	// contains them (an implementation that narrows the character would alias them onto registered ones)
+	for _, e := range ends {
+		probeSet[0x10000+e] = true
+	}
+	probeSet[0xFFFF], probeSet[0x10FFFF], probeSet[0x1FFFE] = true, true, true
 	var probes []int64
 	for p := range probeSet {
 		probes = append(probes, p)
@@ -170,7 +176,16 @@ func (c *Ctx) mapxRun() *simpleVerdict {
 				}
 				v.runs++
 				noteSample("MAP.model/sequences", strings.Join(hist, "; "))
+				hasDefault := false
+				for _, o := range seq {
+					if o.kind == "default" {
+						hasDefault = true
+					}
+				}
 				for _, p := range probes {
+					if p > 0xFFFE && hasDefault {
+						continue // how far a default registration reaches beyond U+FFFE is not stated
+					}
 					r, out := m.Call(c.lookupMethod(mt, "Lookup"), obj, p)
 					if out.kind == "panic" {
 						v.bad = fmt.Sprintf("after %s, Lookup(%#x) panics: %s", strings.Join(hist, "; "), p, out.why)
@@ -477,7 +492,7 @@ func emitSimple(c *Ctx, rule, key, pos string, v *simpleVerdict, okText string) 
 
 func init() {
 	register(&Rule{ID: "MAP.model", Floor: 1,
-		Doc: "CharReferenceMap evaluated abstractly (NewCharReferenceMap, AddInterval, AddDefaultInterval, Clear, Lookup) over every sequence of up to two registrations/clears (a sample of the sequences of three in the quick tier, all in the thorough tier) with endpoints from {0,'a',0xFF,0x100,0x101,0x2000,0xFFFE} and references {A,B,none}, probed at every endpoint and its neighbours: Lookup returns the reference of the latest registration covering the character",
+		Doc: "CharReferenceMap evaluated abstractly (NewCharReferenceMap, AddInterval, AddDefaultInterval, Clear, Lookup) over every sequence of up to two registrations/clears (a sample of the sequences of three in the quick tier, all in the thorough tier) with endpoints from {0,'a',0xFF,0x100,0x101,0x2000,0xFFFE} and references {A,B,none}, probed at every endpoint and its neighbours and at characters beyond U+FFFE whose low 16 bits equal an endpoint: Lookup returns the reference of the latest registration covering the character",
 		Run: func(c *Ctx) []*Obligation {
 			return emitSimple(c, "MAP.model", "utilities.CharReferenceMap#latest-covering-registration", c.Pos(c.MustFunc("tokenizers/utilities", "", "NewCharReferenceMap").Pos()), c.mapxRun(), "lookups agree with the list model")
 		}})
